@@ -92,8 +92,10 @@ def cases(draw, tier="quick"):
             (1, row.map(lambda ts: {"k": "tuple", "ts": ts})),
             (1, st.lists(row, min_size=1, max_size=2).map(lambda rs: {"k": "sum", "rows": rs})),
             (1, st.tuples(row, row).map(lambda io: {"k": "fn", "i": io[0], "o": io[1], "reqs": []})),
+            (1, row.map(lambda ts: {"k": "fn", "i": [{"k": "bool"}, *ts], "o": respell([{"k": "bool"}, *ts]), "reqs": []})),
             (1, st.tuples(asts.EXT_NAMES, asts.NAMES, st.lists(sub.map(lambda t: {"k": "type", "t": t}), max_size=2)).map(lambda x: {"k": "opaque", "ext": "unknown." + x[0], "id": x[1], "args": x[2], "b": "A"})),
             (1, sub.map(lambda t: {"k": "list", "t": t})),
+            (1, st.sampled_from(tdefs).map(lambda td: {"k": "opaque", "ext": td["ext"], "id": td["ext"] + "." + td["name"], "args": [], "b": "A"})),
         )
 
     depth = 2 if tier == "quick" else 3
@@ -103,6 +105,10 @@ def cases(draw, tier="quick"):
     for _ in range(draw(st.integers(2, 5))):
         kind = draw(st.sampled_from(["pool", "pool", "pool", "pool", "std", "unknown"]))
         i, o = draw(st.lists(T, min_size=1, max_size=2)), draw(st.lists(T, max_size=2))
+        if draw(st.integers(0, 3)) == 0:
+            # output row == input row as objects, in the other spelling of unit sums
+            i = [{"k": "bool"}, *i]
+            o = respell(i)
         args = draw(st.lists(st.one_of(T.map(lambda t: {"k": "type", "t": t}), st.lists(T.map(lambda t: {"k": "type", "t": t}), max_size=2).map(lambda es: {"k": "seq", "es": es}), asts.args(0)), max_size=2))
         if kind == "pool":
             en, on = draw(st.sampled_from(all_ops))
@@ -113,6 +119,9 @@ def cases(draw, tier="quick"):
                 # the same requirements: equal as objects, different on the wire
                 reqs = list(dict.fromkeys([*od["reqs"], en]))
                 ops.append({"ext": en, "name": on, "i": respell(od["i"]), "o": respell(od["o"]), "reqs": reqs, "args": [], "desc": draw(asts.DESCS), "respelled": True})
+            elif draw(st.integers(0, 4)) == 0:
+                # "<extension>.<name>" is not the name of the definition "<name>"
+                ops.append({"ext": en, "name": en + "." + on, "i": i, "o": o, "args": args, "desc": draw(asts.DESCS)})
             else:
                 ops.append({"ext": en, "name": on, "i": i, "o": o, "args": args, "desc": draw(asts.DESCS)})
         elif kind == "std":
@@ -161,8 +170,6 @@ def build(case):
             k = o["std"]
             op = mk_op({"k": "Not"} if k == "Not" else {"k": "DivMod", "w": o["w"]} if k == "DivMod" else {"k": "MakeTuple", "ts": o["ts"]} if k == "MakeTuple" else {"k": "Noop", "t": (o["ts"] or [{"k": "bool"}])[0]})
         elif o["ext"] in pool:
-            od = pool[o["ext"]].operations[o["name"]]
-            op = ops.ExtOp(od, tys.FunctionType(mk_row(o["i"]), mk_row(o["o"])), [mk_arg(a) for a in o["args"]])
             op = ops.Custom(op_name=o["name"], signature=tys.FunctionType(mk_row(o["i"]), mk_row(o["o"]), list(o.get("reqs", []))), description=o["desc"], extension=o["ext"], args=[mk_arg(a) for a in o["args"]])
         else:
             op = ops.Custom(op_name=o["name"], signature=tys.FunctionType(mk_row(o["i"]), mk_row(o["o"])), description=o["desc"], extension=o["ext"], args=[mk_arg(a) for a in o["args"]])
